@@ -28,6 +28,12 @@ def load_mutants():
         for fn in sorted(os.listdir(bd)):
             if fn.endswith('.diff'):
                 ms.append({'id': 'refac:' + fn[:-5], 'props': [], 'benign': True, 'patch': os.path.join(bd, fn), 'expect': []})
+    # behaviour-preserving rewrites outside the recognised idiom set: run and reported, never counted as a failure
+    ud = os.path.join(d, 'unrecognised_patches')
+    if os.path.isdir(ud):
+        for fn in sorted(os.listdir(ud)):
+            if fn.endswith('.diff'):
+                ms.append({'id': 'unrec:' + fn[:-5], 'props': [], 'benign': True, 'unrecognised': True, 'patch': os.path.join(ud, fn), 'expect': []})
     # independently written breaking changes (sub-agents), kept as patches
     sd = os.path.join(VERIF, 'seeded')
     if os.path.isdir(sd):
@@ -88,7 +94,10 @@ def run_mutant(mut, feature_set='default', cmdline=None):
         facts = F.Facts(fd)
         ctx = core.Ctx(facts, feature_set)
         only = set(r for r, _ in mut['expect']) if mut.get('expect') else None
-        if mut.get('expect_prop'):
+        if mut.get('restrict_props'):
+            for p_ in mut['restrict_props']:
+                core.run_rules(ctx, prop=p_)
+        elif mut.get('expect_prop'):
             core.run_rules(ctx, prop=mut['expect_prop'])
             ctx.results[:] = [r for r in ctx.results if mut['expect_prop'] in (r.props if r.props is not None else
                               [p for rd in core.RULES if rd.id == r.rule for p in rd.props])]
@@ -99,6 +108,9 @@ def run_mutant(mut, feature_set='default', cmdline=None):
             known, _ = core.load_known()
             kk = set(k for _, k in known)
             bad = [r for r in bad if r.key not in kk]
+            if mut.get('unrecognised'):
+                return {'id': mut['id'], 'status': 'unrecognised' if bad else 'recognised',
+                        'reports': ['%s %s/%s: %s' % (r.status, r.rule, r.instance, r.msg) for r in bad][:6]}
             return {'id': mut['id'], 'status': 'false-alarm' if bad else 'silent',
                     'reports': ['%s %s/%s: %s' % (r.status, r.rule, r.instance, r.msg) for r in bad][:6]}
         fired = []
@@ -117,7 +129,10 @@ def run_mutant(mut, feature_set='default', cmdline=None):
 def run_all(props=None, ids=None, jobs=14):
     ms = load_mutants()
     if props:
-        ms = [m for m in ms if set(m.get('props', [])) & set(props)]
+        # the independent refactoring patches carry no property list: they take part in every property's thorough run,
+        # judged by the rules of that property only
+        ms = [dict(m, restrict_props=list(props)) if (m.get('benign') and not m.get('props')) else m
+              for m in ms if set(m.get('props', [])) & set(props) or (m.get('benign') and not m.get('props'))]
     if ids:
         ms = [m for m in ms if m['id'] in ids]
     t0 = time.time()
